@@ -220,13 +220,15 @@ def run_bytes(res):
     from ..kernel import cold
 
     payloads = [b"", b"a", b"1", b"\xff\x00", b'{"a": 1}', b"null", b"[1, 2]"]
-    for tname, tcls in (("bytes", bytes), ("bytearray", bytearray), ("memoryview", memoryview)):
+    for tname, tcls, cfg in [(a, b, c) for a, b in (("bytes", bytes), ("bytearray", bytearray), ("memoryview", memoryview)) for c in CONFIGS]:
         cold.clear_all()
         res.programs += 1
-        c = timed(E.BUILD_LIMIT, typelib.codec, tcls)
+        c = _codec(tcls, cfg)
+        res.hit("bytes-config:" + cfg)
         if not c.ok:
-            res.violation(f"C02/bytes/build/{tname}", f"codec({tname}) cannot be built: {c!r}", {"bytes": tname})
+            res.violation(f"C02/bytes/build/{tname}/{cfg}", f"codec({tname}) [{cfg}] cannot be built: {c!r}", {"bytes": tname})
             continue
+        tname = tname if cfg == "default" else f"{tname}[{cfg}]"
         for p in payloads:
             for cname, carrier in (("bytes", bytes), ("bytearray", bytearray), ("memoryview", memoryview)):
                 b = carrier(p)
@@ -241,7 +243,7 @@ def run_bytes(res):
                                   f"codec({tname}).decode({b!r}) = {short(d.val if d.ok else d.exc, 80)}; expected {tname} with content {p!r}", {"bytes": tname})
             v = tcls(p)
             e = call(c.val.encode, v)
-            e2 = call(typelib.encode, v, t=tcls)
+            e2 = call(typelib.encode, v, t=tcls) if cfg == "default" else e
             res.evals += 2
             for name, o in (("Codec.encode", e), ("typelib.encode", e2)):
                 good = o.ok and isinstance(o.val, (bytes, bytearray, memoryview)) and bytes(o.val) == p
